@@ -277,6 +277,10 @@ func (df *DataFile) ReadRecordValue(logRecordPos *DataPos) ([]byte, error) {
 	if err != nil {
 		return nil, err
 	}
+	// 各 chunk 校验和均正确但拼接结果与记录头部不符, 同样属于数据损坏
+	if !validLogRecord(buf.B) {
+		return nil, ErrInvalidCRC
+	}
 	value := DecodeLogRecordValue(buf.B)
 	return value, nil
 }
@@ -380,6 +384,9 @@ func (reader *DataReader) NextLogRecord() (*LogRecord, *DataPos, error) {
 	if err != nil {
 		return nil, nil, err
 	}
+	if !validLogRecord(data) {
+		return nil, nil, ErrInvalidCRC
+	}
 	return DecodeLogRecord(data), pos, nil
 }
 
@@ -391,6 +398,9 @@ func (reader *DataReader) NextHintRecord() ([]byte, *DataPos, error) {
 	data, _, err := reader.next()
 	if err != nil {
 		return nil, nil, err
+	}
+	if !validHintRecord(data) {
+		return nil, nil, ErrInvalidCRC
 	}
 
 	hintRecord, pos := DecodeHintRecord(data)
